@@ -252,7 +252,7 @@ def run(tier: str) -> int:
         "Lean 4.33.0 kernel; axioms of every theorem ⊆ {propext, Classical.choice, Quot.sound}",
         "model lean/Koreo/ResourceFn.lean (`decide`, `reconcile`) hand-transcribed from reconcile_resource_function / "
         "reconcile_krm_resource; flag and delay defaults regenerated by harness/extractors/RfDefaults.py",
-        "exhaustive run of all 4608 cells x 2 spec variants through the real prepare + reconcile against "
+        "exhaustive run of all 4608 cells (7680 runs, two spec variants where parsing matters) through the real prepare + reconcile against "
         "harness/cluster.py (in-memory API with merge-patch and a request log)",
         "kr8s 0.20.7 APIObject (create/patch/delete -> call_api), celpy for the precondition and apiConfig expressions, "
         "the comparator validate_match (its answer is an input of the table)",
@@ -278,7 +278,10 @@ def run(tier: str) -> int:
                 other = ("omitted", "explicit")[idx % 2]
                 work += [(idx, cell, other, {"code": 409}), (idx, cell, v, {"code": 500})]
             continue
-        for variant in ("explicit", "omitted"):
+        # both spec variants where parsing matters most; one (alternating) for the two remaining situations
+        variants = ("explicit", "omitted") if cell["sit"] in ("absent", "presentMatching", "presentDrifted") else \
+            (("explicit", "omitted")[idx % 2],)
+        for variant in variants:
             work.append((idx, cell, variant, {}))
         # the sub-table that is re-prepared by the cache before it is reconciled
         if cell["precond"] and cell["pluralGiven"] and cell["sit"] in ("absent", "presentDrifted"):
@@ -337,8 +340,9 @@ def run(tier: str) -> int:
              "written or not x apiConfig.plural given or to be discovered (cold cache, a kind of its own) x 5 cluster "
              "situations (absent, matching, drifted, no owner reference, absent at the load with a competitor creating "
              "the object before our POST: 409, drifted with the server rejecting the mutating call) = 4608 cells, each "
-             "as a real prepared ResourceFunction in two spec variants (every key explicit / every default-valued key "
-             "omitted), reconciled once against a freshly seeded cluster; the rejected-mutation cells run in one spec "
+             "as a real prepared ResourceFunction (spec variants: every key explicit / every default-valued key "
+             "omitted — both for absent, matching, drifted; alternating for the other situations), reconciled once "
+             "against a freshly seeded cluster; the rejected-mutation cells run in one spec "
              "variant (alternating) with status 422, and with 409 and 500 on the plural-given / no-create-overlay part; additionally the sub-table {preconditions pass, "
              "plural given, absent | drifted} (768 cells) is run once more with the function depending on an overlayRef "
              "ValueFunction that is updated, so that the cache re-prepares the function in the background and the "
